@@ -10,6 +10,15 @@ pattern (XsVerif/Model/NsMapper.lean, `decodeDoc`).  The mapper is also driven d
 operation scripts (`__setitem__`, `__delitem__`, `set_xmlns_context` with arbitrary levels, `map_qname`,
 `unmap_qname` with xmlns overrides / name tables) against the model, op for op.
 
+Deepening round.  The model also builds the decoded DATA TREE (`decodeT`: keys, reported xmlns, attribute keys,
+pruning of childless items by the default converter) which is compared with the data the real converters
+return, and ports the encoders' call pattern (`encodeDoc`/`encVisit`): the real `encode()` is run with the
+tracing converter and its `set_xmlns_context` calls and the names of the produced XML tree are compared with
+the model.  All converters shipped in xmlschema/converters plus DataElementConverter are driven (those that
+report no xmlns entries are tied at trace level and judged against the document's own in-scope
+declarations), ElementTree and lxml sources, documents with wildcard-matched (undeclared) element and
+attribute names, `process_namespaces` / `strip_namespaces` switches in the operation scripts.
+
 Property evaluation on the real code (independent of Lean).  The decoded data is read by an independent
 XML-Namespaces resolver (unprefixed element keys take the reported default namespace, unprefixed attribute
 keys never do) using only the declarations that the data reports for the item and its ancestors; the
@@ -28,7 +37,7 @@ PROPS = 'XsVerif.Props.C17'
 AUDIT = 'XsVerif.Audit.C17'
 LEAN_TARGETS = ['XsVerif.Props.C17', 'drv_c17']
 LEANCHECK = ['XsVerif.Model.NsMapper', 'XsVerif.Lemmas.NsMapper', 'XsVerif.Props.C17']
-RULE = ('a case is (document, user namespace map, xmlns_processing mode, converter) or one mapper operation '
+RULE = ('a case is (document, user namespace map, xmlns_processing mode, converter, parser) or one mapper operation '
         'script; non-trivial = the document redeclares a prefix in an inner scope, binds two prefixes to one URI, '
         'or sets/unsets a default namespace below the root (documents), resp. the script contains a rebind of a '
         'bound prefix or a context pop (scripts); distinct by canonical JSON of the case')
@@ -40,19 +49,34 @@ ASSUMPTIONS = ['documents are namespace-well-formed (every used name has a bindi
                'generator and required by the XML parser',
                'prefixes within one element are distinct (XML well-formedness); hypothesis `NodupKeys` of the theorems',
                'schema family: elements a, b in four namespaces, one recursive type, global attributes {ui}x and a '
-               'local attribute y; wildcard-matched names are not explored']
+               'local attribute y, a lax element wildcard for namespace u4 (undeclared elements typed xs:anyType) and '
+               'a lax attribute wildcard (undeclared attribute names, qualified or not)',
+               'encode: the initial map of the encoder (user map + declarations get_namespaces reads from the data) is '
+               'taken from the real converter as an input of the model (its merge step is tied separately: merges)']
 
 MODES = ['stacked', 'collapsed', 'root-only']
 
 
 def converters():
+    """name -> (class, view of decoded items or None, preserve_root, prune)
+    view None: the converter reports no xmlns entries (loss_xmlns): tied at trace level, judged against the
+    document's own declarations.  prune: the model's `keptItem` rule (None: data tree not compared)."""
     import xmlschema
+    from xmlschema.dataobjects import DataElementConverter
     return {
-        'default': (xmlschema.XMLSchemaConverter, L.view_default, True),
-        'unordered': (xmlschema.UnorderedConverter, L.view_default, True),
-        'badgerfish': (xmlschema.BadgerFishConverter, L.view_badgerfish, False),
-        'jsonml': (xmlschema.JsonMLConverter, L.view_jsonml, False),
+        'default': (xmlschema.XMLSchemaConverter, L.view_default, True, True),
+        'unordered': (xmlschema.UnorderedConverter, L.view_default, True, True),
+        'badgerfish': (xmlschema.BadgerFishConverter, L.view_badgerfish, False, False),
+        'jsonml': (xmlschema.JsonMLConverter, L.view_jsonml, False, False),
+        'gdata': (xmlschema.GDataConverter, L.view_gdata, False, False),
+        'dataelement': (DataElementConverter, L.view_dataelement, False, None),
+        'abdera': (xmlschema.AbderaConverter, None, False, None),
+        'parker': (xmlschema.ParkerConverter, None, True, None),
+        'columnar': (xmlschema.ColumnarConverter, None, False, None),
     }
+
+
+ENCODABLE = ('default', 'unordered', 'badgerfish', 'jsonml')
 
 
 # ------------------------------------------------------------------------------------------------
@@ -68,14 +92,18 @@ F5_WITNESS = {'ns': [['p', 'u1'], ['q', 'u1']], 'ops': [{'k': 'set', 'p': 'p', '
 class ScriptMapper:
     """A real NamespaceMapper whose xmlns getter returns the declarations attached to script objects."""
 
-    def __init__(self, ns: list, mode: str):
-        from xmlschema.namespaces import NamespaceMapper
+    def __init__(self, ns: list, mode: str, cfg: Optional[dict] = None):
+        from xmlschema import XMLSchemaConverter
 
-        class M(NamespaceMapper):
+        class M(XMLSchemaConverter):      # a NamespaceMapper with map_attributes
+            __slots__ = ()
+
             def get_xmlns_from_data(self, obj):
-                return obj.decl or None
+                return getattr(obj, 'decl', None) or None
 
-        self.m = M(dict(ns), xmlns_processing=mode, source=None)
+        cfg = cfg or {}
+        self.m = M(dict(ns), xmlns_processing=mode, source=None,
+                   process_namespaces=cfg.get('process', True), strip_namespaces=cfg.get('strip', False))
         self.objs: dict = {}
 
     def obj(self, oid: int, decl: list):
@@ -115,6 +143,8 @@ class ScriptMapper:
             return None
         if k == 'map':
             return m.map_qname(L.qn(*op['q']))
+        if k == 'mapattr':
+            return list(m.map_attributes([(L.qn(*op['q']), 'v')]))[0][0][1:]
         if k == 'unmap':
             n = op['n']
             s = n['l'] if n['t'] == 'loc' else (f"{n['p']}:{n['l']}" if n['t'] == 'pre' else '{%s}%s' % (n['u'], n['l']))
@@ -123,8 +153,8 @@ class ScriptMapper:
         raise ValueError(k)
 
 
-def run_script(ns: list, mode: str, ops: list) -> dict:
-    sm = ScriptMapper(ns, mode)
+def run_script(ns: list, mode: str, ops: list, cfg: Optional[dict] = None) -> dict:
+    sm = ScriptMapper(ns, mode, cfg)
     init = sm.state()
     steps = []
     for op in ops:
@@ -146,6 +176,18 @@ def detect_variant() -> str:
 def setitem_stale() -> bool:
     r = run_script(F5_WITNESS['ns'], 'none', F5_WITNESS['ops'])
     return r['steps'][-1]['ret'] != 'q:e'
+
+
+F7_WITNESS = {'ns': [['', 'u1'], ['p', 'u1']], 'ops': [{'k': 'mapattr', 'q': ['u1', 'x']}]}
+
+
+def detect_attr_rule() -> str:
+    """'current' (map_attributes = map_qname, C17-F7) or 'repaired' (notes/fixes/C17-attribute-default-prefix.patch)"""
+    r = run_script(F7_WITNESS['ns'], 'none', F7_WITNESS['ops'])
+    return 'current' if r['steps'][-1]['ret'] == 'x' else 'repaired'
+
+
+ARULE = 'current'
 
 
 # ------------------------------------------------------------------------------------------------
@@ -174,11 +216,7 @@ def known_match(case: dict, detail: dict) -> Optional[str]:
     """Returns the id of the listed finding that explains this failing observation, else None."""
     kind = detail.get('kind')
     if kind == 'script':
-        # C17-F5: __setitem__ rebinding the recorded prefix of another URI that still has a prefix
-        if detail.get('cause') == 'setitem-rebind':
-            return 'C17-F5'
-        if detail.get('cause') == 'ctx-double-rebind':
-            return 'C17-F2'
+        # C17-F2 / C17-F5 are fixed (b20c29d): a stale reverse record is a violation again
         return None
     mode = case.get('mode')
     if kind == 'encode-tree':
@@ -226,16 +264,6 @@ def known_match(case: dict, detail: dict) -> Optional[str]:
             own_default = any(p == '' for n in chain for p, _ in n['decl'])
             if mode in ('collapsed', 'root-only') or (not own_default and dict(case.get('user') or []).get('')):
                 return 'C17-F4'
-        if mode == 'stacked' and exp_ns and key[:1] != '{':
-            pfx = key.split(':')[0] if ':' in key else ''
-            scopes = _doc_scopes(chain)
-            user = dict(case.get('user') or [])
-            for n, before in zip(chain, scopes):
-                b = dict(user)
-                b.update(before)
-                lost = [p for p, u in n['decl'] if b.get(p) == exp_ns and u != exp_ns]
-                if len(lost) >= 2 and pfx in lost:
-                    return 'C17-F2'
         return None
     return None
 
@@ -282,10 +310,14 @@ def model_calls(doc: dict, obs: dict) -> list:
     return out
 
 
-def decode_real(doc: dict, xml: str, user: list, mode: str, conv: str):
+def decode_real(doc: dict, xml: str, user: list, mode: str, conv: str, lx: bool = False):
     import xmlschema
-    base, view, proot = converters()[conv]
-    res = xmlschema.XMLResource(xml)
+    base, view, proot, _ = converters()[conv]
+    if lx:
+        import lxml.etree as LE
+        res = xmlschema.XMLResource(LE.fromstring(xml.encode()))
+    else:
+        res = xmlschema.XMLResource(xml)
     ids = {id(e): i for i, e in enumerate(res.root.iter())}
     L.reset_trace(ids)
 
@@ -299,6 +331,7 @@ def decode_real(doc: dict, xml: str, user: list, mode: str, conv: str):
         kw['namespaces'] = dict(user)
     data, errors = L.schema().decode(res, **kw)
     trace = {'calls': L.TRACE['calls'], 'elems': dict(L.TRACE['elems']), 'attrs': dict(L.TRACE['attrs']),
+             'init': L.TRACE['init'],
              'xmlns': {ids[id(e)]: [list(x) for x in (res.get_xmlns(e) or [])] for e in res.root.iter()}}
     return data, errors, trace
 
@@ -307,8 +340,54 @@ def root_item(conv: str, data: Any):
     """(root key, root item) of decoded data"""
     if conv == 'jsonml':
         return data[0], data
+    if conv == 'dataelement':
+        return data.tag, data
     (k, v), = data.items()
-    return k, v
+    return (k if conv != 'gdata' or k[:1] == '{' else k.replace('$', ':')), v
+
+
+def is_map(conv: str, item: Any) -> bool:
+    return True if conv == 'jsonml' else isinstance(item, dict)
+
+
+def canon_item_real(conv: str, view, key: str, item: Any) -> Any:
+    m = is_map(conv, item)
+    xmlns, attrs, ch = view(item) if m else ([], [], [])
+    return [key, m, [list(x) for x in xmlns], sorted(attrs),
+            sorted((canon_item_real(conv, view, k, it) for k, it in ch), key=repr)]
+
+
+def canon_item_model(it: dict) -> Any:
+    return [it['key'], it['map'], it['xmlns'], sorted(it['attrs']), sorted((canon_item_model(c) for c in it['ch']), key=repr)]
+
+
+def build_item(conv: str, view, key: str, item: Any, counter: list, objids: dict, tab: list) -> dict:
+    """the data as the encoder will walk it (data order), with identifiers for the mapping objects"""
+    iid = counter[0]
+    counter[0] += 1
+    m = is_map(conv, item)
+    xmlns, attrs, ch = view(item) if m else ([], [], [])
+    if m:
+        objids[id(item)] = iid
+    loc = key.split('}')[-1].split(':')[-1]
+    if loc != 'w':
+        tab.append([iid, 'y'])           # declared elements a, b: the type declares the unqualified attribute y
+    return {'id': iid, 'key': key, 'map': m, 'xmlns': [list(x) for x in xmlns], 'attrs': list(attrs),
+            'ch': [build_item(conv, view, k, it, counter, objids, tab) for k, it in ch]}
+
+
+def canon_from_obs(obs: list) -> Any:
+    """nested canonical tree [tag, sorted attrs, sorted children] from the model's pre-order observations"""
+    pos = [0]
+
+    def rec(level):
+        o = obs[pos[0]]
+        pos[0] += 1
+        ch = []
+        while pos[0] < len(obs) and obs[pos[0]]['level'] == level + 1:
+            ch.append(rec(level + 1))
+        return [o['tag'], sorted(o['attrs']), sorted(ch, key=repr)]
+    return rec(obs[0]['level']) if obs else None
 
 
 def node_walk(ctx: Ctx, case: dict, doc: dict, conv: str, data: Any, trace: dict) -> list:
@@ -364,22 +443,26 @@ def node_walk(ctx: Ctx, case: dict, doc: dict, conv: str, data: Any, trace: dict
     return fails
 
 
-def encoder_reading(view, conv: str, key: str, item: Any, scope: dict, tag: Optional[str], hits: dict) -> Any:
+def encoder_reading(view, conv: str, key: str, item: Any, scope: dict, tag: Optional[str], hits: dict,
+                    doc: Optional[dict] = None) -> Any:
     """What the library's own encoder makes of the data (dict-based converters): an unprefixed attribute key
-    under a default namespace is taken into it unless declared unqualified (C17-F7), all items listed under one
-    key take the name resolved for the first item (C17-F3)."""
+    under a default namespace is taken into it unless the element's type declares it unqualified (a key that
+    came from a namespaced attribute: C17-F7; from an undeclared attribute in no namespace: C17-F9), all items
+    listed under one key take the name resolved for the first item (C17-F3)."""
     xmlns, attrs, ch = view(item)
     s = dict(scope)
     for p, u in xmlns:
         s[p] = u
     if tag is None:
         tag = L.resolve(key, s, False)
+    table = ['y'] if (tag.split('}')[-1] in L.LOCALS and not tag.startswith('{%s}' % L.WILD)) else []
     ra = []
     for a in attrs:
         r = L.resolve(a, s, True)
-        if r == a and a != 'y' and s.get(''):
+        if r == a and a not in table and s.get(''):
             r = L.qn(s[''], a)
-            hits['C17-F7'] = hits.get('C17-F7', 0) + 1
+            fid = 'C17-F9' if a in ('y', 'z') else 'C17-F7'
+            hits[fid] = hits.get(fid, 0) + 1
         ra.append(r)
     rc = []
     if conv == 'jsonml':
@@ -411,15 +494,71 @@ def encoder_reading(view, conv: str, key: str, item: Any, scope: dict, tag: Opti
     return [tag, sorted(ra), sorted(rc, key=repr)]
 
 
-def eval_doc(ctx: Ctx, case: dict, doc: dict, conv: str, mode: str, data: Any, errors: list, trace: dict) -> None:
-    """the property itself on the real code"""
+def eval_trace(ctx: Ctx, case: dict, doc: dict, mode: str, trace: dict) -> None:
+    """converters that report no xmlns entries: every key handed to the converter, resolved with the document's
+    own in-scope declarations over the user map (stacked) resp. with the one final map (other modes), must
+    denote the expanded name of its node"""
+    user = dict(case.get('user') or [])
+    final = dict(map(tuple, trace['calls'][-1]['ns'])) if trace['calls'] else {}
+
+    def walk(n: dict, scope: dict):
+        s = dict(scope)
+        for p, u in n['decl']:
+            s[p] = u
+        rs = s if mode == 'stacked' else final
+        akeys = trace['attrs'].get(n['id'], [])
+        if len(akeys) == len(n['attrs']):
+            for a, k in zip(n['attrs'], akeys):
+                try:
+                    g = L.resolve(k, rs, True)
+                except L.Unresolved:
+                    g = None
+                if g != L.qn(*a):
+                    yield {'phase': 'decode', 'kind': 'attribute', 'node': n['id'], 'key': k, 'denotes': g,
+                           'expected': a, 'reported_default': rs.get('') or '', 'path': ''}
+        ckeys = trace['elems'].get(n['id'], [])
+        if len(ckeys) == len(n['ch']):
+            for c, k in zip(n['ch'], ckeys):
+                cs = dict(s)
+                for p, u in c['decl']:
+                    cs[p] = u
+                crs = cs if mode == 'stacked' else final
+                try:
+                    g = L.resolve(k, crs, False)
+                except L.Unresolved:
+                    g = None
+                if g != L.qn(*c['tag']):
+                    yield {'phase': 'decode', 'kind': 'element', 'node': c['id'], 'key': k, 'denotes': g,
+                           'expected': c['tag'], 'reported_default': crs.get('') or '', 'path': ''}
+        elif n['ch']:
+            yield {'phase': 'decode', 'kind': 'shape', 'node': n['id'], 'emitted': ckeys, 'path': ''}
+        for c in n['ch']:
+            yield from walk(c, s)
+
+    for f in walk(doc, user):
+        fid = known_match(case, f)
+        if fid:
+            ctx.known_hit(fid, case, f)
+            ctx.count('known:' + fid)
+        else:
+            ctx.failure('a key handed to the converter, resolved with the declarations in scope of its node, does not '
+                        'denote the expanded name of the node', case, f)
+            return
+    ctx.count('trace-level evaluation ok')
+
+
+def eval_doc(ctx: Ctx, case: dict, doc: dict, conv: str, mode: str, data: Any, errors: list, trace: dict) -> Optional[dict]:
+    """the property itself on the real code; returns the material for the encode tie when encode restored the names"""
     import xmlschema
-    base, view, proot = converters()[conv]
+    base, view, proot, _ = converters()[conv]
     want = L.canon_doc(doc)
     if errors:
         ctx.failure('valid generated document reported invalid while decoding', case,
                     {'errors': [str(e.reason) for e in errors[:3]]})
-        return
+        return None
+    if view is None:
+        eval_trace(ctx, case, doc, mode, trace)
+        return None
     # --- decode: data read with the declarations it reports -----------------------------------
     unresolved: list = []
     k, item = root_item(conv, data)
@@ -432,14 +571,20 @@ def eval_doc(ctx: Ctx, case: dict, doc: dict, conv: str, mode: str, data: Any, e
         for f in fails:
             fid = known_match(case, f)
             if fid:
-                ctx.known_hit(fid)
+                ctx.known_hit(fid, case, f)
                 ctx.count('known:' + fid)
             else:
                 ctx.failure('a decoded key, resolved with the declarations the data reports, does not denote the '
                             'expanded name of its XML node', case, f)
-                return
+                return None
     # --- encode: restores the names the data denotes ----------------------------------------------
-    kw: dict = {'converter': base, 'validation': 'lax', 'xmlns_processing': mode, 'path': L.qn(*doc['tag'])}
+    if conv not in ENCODABLE:
+        ctx.count('encode not driven for this converter')
+        return None
+    counter, objids, tab = [0], {}, []
+    enc_item = build_item(conv, view, k, item, counter, objids, tab)
+    L.reset_trace(objids)
+    kw: dict = {'converter': L.traced(base), 'validation': 'lax', 'xmlns_processing': mode, 'path': L.qn(*doc['tag'])}
     if proot:
         kw['preserve_root'] = True
     if case.get('user'):
@@ -448,55 +593,57 @@ def eval_doc(ctx: Ctx, case: dict, doc: dict, conv: str, mode: str, data: Any, e
         elem, eerrors = L.schema().encode(data, **kw)
     except Exception as e:  # noqa
         elem, eerrors = None, [e]
+    etrace = {'calls': L.TRACE['calls'], 'init': L.TRACE['init']}
     if elem is None and conv == 'badgerfish' and any("'list' object has no attribute 'items'" in str(e) for e in eerrors):
         # BadgerFishConverter.element_encode takes a dict with a single child key for the element's own wrapper
         # (badgerfish.py:104-113) and crashes; not a naming question — counted, not judged
         ctx.count('encode not evaluable (badgerfish single-child wrapper ambiguity)')
-        return
+        return None
     if elem is None and decode_ok and not doc['tag'][0] and dict(case.get('user') or []).get('') and \
             any('data tag does not match XSD element name' in str(e) or 'Unmatched tag' in str(e) for e in eerrors):
         # C17-F4 (encode side): the user-supplied default namespace is applied to the no-namespace root key
-        ctx.known_hit('C17-F4')
+        ctx.known_hit('C17-F4', case)
         ctx.count('known:C17-F4 (encode)')
-        return
+        return None
     if elem is None and decode_ok and conv == 'jsonml' and any('Unmatched tag' in str(e) for e in eerrors) and \
             known_match(case, {'kind': 'encode-tree', 'phase': 'encode', 'converter': conv, 'item': item, 'key': k}) == 'C17-F8':
-        ctx.known_hit('C17-F8')
+        ctx.known_hit('C17-F8', case)
         ctx.count('known:C17-F8 (encode)')
-        return
+        return None
     if elem is None:
         if decode_ok:
             ctx.failure('decoded data cannot be encoded back', case, {'phase': 'encode', 'errors': [str(e)[:200] for e in eerrors[:2]]})
         else:
             ctx.count('encode skipped after known decode finding')
-        return
+        return None
     enc = L.canon_elem(elem)
     if enc == got:
         ctx.count('encode ok')
-        return
+        return {'item': enc_item, 'tab': tab, 'etrace': etrace, 'enc': enc}
     hits: dict = {}
     try:
-        pred = encoder_reading(view, conv, k, item, {}, None, hits)
+        pred = encoder_reading(view, conv, k, item, {}, None, hits, doc)
     except L.Unresolved:
         pred = None
     if pred == enc and hits:
         for fid, n in hits.items():
-            ctx.known_hit(fid)
+            ctx.known_hit(fid, case)
             ctx.count('known:' + fid + ' (encode)')
-        return
+        return None
     if not decode_ok:
         # names were already wrong in the data (listed decode finding); the encoder cannot restore them
         ctx.count('encode differs after known decode finding')
-        return
+        return None
     fid = known_match(case, {'kind': 'encode-tree', 'phase': 'encode', 'converter': conv, 'item': item, 'key': k,
                              'diff': L.first_diff(got, enc)})
     if fid:
-        ctx.known_hit(fid)
+        ctx.known_hit(fid, case)
         ctx.count('known:' + fid + ' (encode)')
-        return
+        return None
     ctx.failure('encoding the decoded data does not restore the expanded names', case,
                 {'phase': 'encode', 'kind': 'tree', 'diff': L.first_diff(got, enc),
                  'data': json.loads(json.dumps(data, default=str))})
+    return None
 
 
 def compare_doc(ctx: Ctx, case: dict, doc: dict, trace: dict, m: dict) -> None:
